@@ -88,6 +88,14 @@ func runC02(r *Report) {
 	// lost wake-up: re-test in requestPiece (C10.R3)
 	c10R3(r.sub("R1"))
 	c10R6(r.sub("R1"))
+	// a reader that gives up and is used again (FUSE keeps one reader per handle) must register its request again:
+	// the reader-side bookkeeping rules of C10.R4 (shortcut cache refreshed/reset, withdrawals) are necessary for
+	// "a blocked read eventually returns"
+	c10R4(r.sub("R1"))
+	// … and so is the release of in-flight reservations when a request is dropped (C09.R3/R5): a block whose
+	// reservation leaks reaches the in-flight limit and is never requested again
+	c09R3(r.sub("R6"))
+	c09R5(r.sub("R6"))
 	// ---- R2
 	// linear form over the reader's own fields (and len(a)): offsets that cancel are accepted
 	type lin struct {
